@@ -779,10 +779,13 @@ func (env *Env) evalCall(n *ECall) Value {
 		if e.freshRegs[s.Reg] {
 			return VBool{True}
 		}
-		if !env.pos {
-			return VBool{e.fresh("fresh?", BoolSort)}
+		if _, pre := e.lazyRegs[s.Reg.Name]; pre && !strings.Contains(s.Reg.Name, "~c") && !strings.Contains(s.Reg.Name, "!c") {
+			// a region of the unit's pre-state is never fresh
+			return VBool{False}
 		}
-		return VBool{False}
+		// regions returned by callees: freshness is a predicate of the region
+		// that callee contracts may assert
+		return VBool{e.declare("isfresh!"+s.Reg.Name, BoolSort)}
 	case "sameregion":
 		argn(2)
 		a, b := env.sliceArg(n.Args[0]), env.sliceArg(n.Args[1])
@@ -899,10 +902,16 @@ var specFuncs = map[string]func(env *Env, n *ECall) Value{}
 // havocTarget havocs one `assigns` target.
 func (env *Env) havocTarget(a AssignTarget, tag string, pre *State) {
 	e := env.e
+	// locations and ranges are those of the pre-call state
+	penv := env.sub()
+	if pre != nil {
+		penv.st = pre
+		penv.old = pre
+	}
 	switch x := a.E.(type) {
 	case *ESlice:
 		// s[lo:hi] content
-		s := env.sliceArg(x.X)
+		s := penv.sliceArg(x.X)
 		if s.Reg == nil {
 			return
 		}
@@ -913,10 +922,10 @@ func (env *Env) havocTarget(a AssignTarget, tag string, pre *State) {
 		}
 		lo, hi := i64(0), s.Len
 		if x.Lo != nil {
-			lo = env.idx64(x.Lo)
+			lo = penv.idx64(x.Lo)
 		}
 		if x.Hi != nil {
-			hi = env.idx64(x.Hi)
+			hi = penv.idx64(x.Hi)
 		}
 		old := e.regArr(env.st, s.Reg, "", es)
 		na := e.declare(fmt.Sprintf("%s@mem~%s_%d", s.Reg.Name, tag, e.nfresh), old.Sort)
@@ -930,7 +939,7 @@ func (env *Env) havocTarget(a AssignTarget, tag string, pre *State) {
 		return
 	case *ECall:
 		if x.Fn == "mem" && len(x.Args) == 1 {
-			s := env.sliceArg(x.Args[0])
+			s := penv.sliceArg(x.Args[0])
 			if s.Reg != nil {
 				e.havocRegion(env.st, s.Reg, tag)
 			}
@@ -951,10 +960,14 @@ func (env *Env) havocTarget(a AssignTarget, tag string, pre *State) {
 			if !ok {
 				env.fail("reslice: %s is not a slice", a.Src)
 			}
+			// the new value is a sub-slice of the old one's capacity window
+			bs := e.declare(fmt.Sprintf("%s?base~%s", loc.String(), tag), BV64)
 			ln := e.declare(fmt.Sprintf("%s?len~%s", loc.String(), tag), BV64)
 			cp := e.declare(fmt.Sprintf("%s?cap~%s", loc.String(), tag), BV64)
-			env.st.assume(And(BVCmp("bvsle", i64(0), ln), BVCmp("bvsle", ln, cp), BVCmp("bvslt", cp, i64(1<<maxLenBits))))
-			e.storeLoc(env.st, loc, VSlice{Nil: cur.Nil, Reg: cur.Reg, Base: cur.Base, Len: ln, Cap: cp, Elem: cur.Elem})
+			env.st.assume(And(BVCmp("bvsle", i64(0), ln), BVCmp("bvsle", ln, cp), BVCmp("bvslt", cp, i64(1<<maxLenBits)),
+				BVCmp("bvsle", cur.Base, bs), BVCmp("bvsle", bs, BVBin("bvadd", cur.Base, cur.Cap)),
+				BVCmp("bvsle", BVBin("bvadd", bs, cp), BVBin("bvadd", cur.Base, cur.Cap))))
+			e.storeLoc(env.st, loc, VSlice{Nil: cur.Nil, Reg: cur.Reg, Base: bs, Len: ln, Cap: cp, Elem: cur.Elem})
 			return
 		}
 		if x.Fn == "ghost" {
